@@ -437,6 +437,13 @@ package html
 // that also decides on which index page an individual is listed (repaired, fix:
 // commit: the link used the first byte of the surname, '1st' and 'Émile' were
 // linked to individuals-1.html / individuals-Ã.html, which are never written).
+// The Individuals tab of the header links to the index page of a letter that
+// HAS an index page - the first of the publisher's index letters; without
+// visible individuals there is no such page and no tab (repaired, fix: commit:
+// the tab linked to individuals-symbol.html, which was never written).
+//@ func PublishHeader.WriteHTMLTo
+//@   props C19
+//@   oncall PageIndividuals check a-letter-that-has-an-index-page: len(c.indexLetters) > 0 && arg0 == c.indexLetters[0]
 //@ func SurnameLink.WriteHTMLTo
 //@   props C19
 //@   ghost L int = 0
